@@ -85,6 +85,7 @@ def run(rep: vk.Report):
     unsupported = 0
     errors = {}
     fixed = common.vectorised_worklist()
+    param_updates = 0
     def sources():
         for f in fixed:
             yield None, [f[0]], list(f[1])
@@ -142,8 +143,14 @@ def run(rep: vk.Report):
         params = {}
         for e in es:
             common.params_of(e, params)
-        ppts = {nme: p.value for nme, p in params.items()}
-        for _ in range(2):
+        for rnd in range(3 if params else 2):
+            if rnd == 2:
+                # Parameters re-set AFTER the Jacobian / gradient callables were compiled
+                for nme, pp in params.items():
+                    if np.ndim(pp.value) == 0:
+                        pp.set(float(rng.choice([-1.5, 0.25, 2.0, 3.5, 0.0, 1.0])) + 0.0625 * rng.randrange(8))
+                        param_updates += 1
+            ppts = {nme: float(p.value) for nme, p in params.items() if np.ndim(p.value) == 0}
             pt = common.pick_point(rng, [v.name for v in V])
             x = np.array([pt[v.name] for v in V], dtype=float)
             with np.errstate(all="ignore"):
@@ -168,7 +175,8 @@ def run(rep: vk.Report):
                         continue
                     nums.append(f"({tes[a]}, {ser.s(v.name)}, {common.pts_term(pt)}, {common.pts_term(ppts)}, {ser.lst(ser.q(o) for o in obs)})")
                     num_meta.append({"i": a, "j": b, "wrt": v.name, "point": pt, "obs": obs, "case": len(keep) - 1,
-                                     "jac_path": jn, "grad_path": gn})
+                                     "jac_path": jn, "grad_path": gn, "V": [t.name for t in V],
+                                     "after_parameter_update": dict(ppts) if rnd == 2 else None})
     tree_fails = trees.run()
     num_fails, num_und = common.run_classify(IMPORTS + " SemI HarnessI", DEFS, NUM_TYPE, nums, NUM_CHECKER) if nums else ([], [])
 
